@@ -53,4 +53,26 @@ var _ = Service("svc", func() {
 			})
 		})
 	})
+	// several result attributes carried in response cookies (one optional)
+	Method("login", func() {
+		Payload(func() {
+			Attribute("org", String)
+			Attribute("tenant", String)
+			Attribute("ver", UInt)
+			Required("org", "tenant")
+		})
+		Result(func() {
+			Attribute("session", String)
+			Attribute("csrf", String)
+			Attribute("user", String)
+			Required("session", "user")
+		})
+		HTTP(func() {
+			POST("/login")
+			Response(StatusOK, func() {
+				Cookie("session:SID")
+				Cookie("csrf:XSRF-TOKEN")
+			})
+		})
+	})
 })
